@@ -343,60 +343,127 @@ fn bind(name: &str, chi: Chirality, t: T) -> ContextBinding {
     ContextBinding { var: id(name), chi, ty: ty(t) }
 }
 
-pub fn stmt(s: &S) -> Statement {
-    match s {
-        S::Cut(t, p, c) => Statement::Cut(Cut { producer: Rc::new(prod(p)), ty: ty(*t), consumer: Rc::new(cons(c)) }),
-        S::Print(p, n) => Statement::PrintI64(PrintI64 { newline: true, arg: Rc::new(prod(p)), next: Rc::new(stmt(n)) }),
-        S::IfZ(p, a, b) => Statement::IfC(IfC { sort: IfSort::Equal, fst: Rc::new(prod(p)), snd: None, thenc: Rc::new(stmt(a)), elsec: Rc::new(stmt(b)) }),
-        S::Exit(p) => Statement::Exit(Exit { arg: Rc::new(prod(p)), ty: Ty::I64 }),
-        S::CallH(a, k) => Statement::Call(Call { name: id("h"), args: Arguments { entries: vec![Argument::Producer(prod(a)), Argument::Consumer(cons(k))] }, ty: Ty::I64 }),
-        S::Call(a, b, k) => Statement::Call(Call { name: id("g"), args: Arguments { entries: vec![Argument::Producer(prod(a)), Argument::Producer(prod(b)), Argument::Consumer(cons(k))] }, ty: Ty::I64 }),
+/// Rendering of the two-name pools as identifiers. Plain: `x, y / k, j`, all with id 0 (as the
+/// translation from Fun writes them). *Partly unique* variant: the second name of each pool is
+/// written with the first one's base name and a non-zero id — `y` becomes `(x, 7)`, `j` becomes
+/// `(k, 8)` — so that two different identifiers with the same base name are in scope together, in
+/// either nesting order. Identifiers with a non-zero id count as already unique (uniquification
+/// leaves them alone), so the variant is only meaningful when each aliased identifier is bound at
+/// most once in the definition: `used` counts the aliased binders (variables, covariables).
+#[derive(Clone)]
+pub struct IdEnv {
+    pub alias: bool,
+    pub used: Rc<std::cell::Cell<(u32, u32)>>,
+}
+impl IdEnv {
+    pub fn zero() -> IdEnv {
+        IdEnv { alias: false, used: Rc::new(std::cell::Cell::new((0, 0))) }
+    }
+    fn var(&self, i: u8) -> Identifier {
+        if self.alias && i == 1 {
+            idn(VARS[0], 7)
+        } else {
+            id(VARS[i as usize])
+        }
+    }
+    fn covar(&self, i: u8) -> Identifier {
+        if self.alias && i == 1 {
+            idn(COVARS[0], 8)
+        } else {
+            id(COVARS[i as usize])
+        }
+    }
+    fn bvar(&self, i: u8) -> Identifier {
+        if i == 1 {
+            let (a, b) = self.used.get();
+            self.used.set((a + 1, b));
+        }
+        self.var(i)
+    }
+    fn bcovar(&self, i: u8) -> Identifier {
+        if i == 1 {
+            let (a, b) = self.used.get();
+            self.used.set((a, b + 1));
+        }
+        self.covar(i)
+    }
+    fn bindv(&self, i: u8) -> ContextBinding {
+        ContextBinding { var: self.bvar(i), chi: Chirality::Prd, ty: Ty::I64 }
+    }
+    fn bindk(&self, i: u8) -> ContextBinding {
+        ContextBinding { var: self.bcovar(i), chi: Chirality::Cns, ty: Ty::I64 }
     }
 }
+fn idn(s: &str, n: usize) -> Identifier {
+    let mut i = Identifier::new(s.to_string());
+    i.id = n;
+    i
+}
+
+pub fn stmt(s: &S) -> Statement {
+    stmt_e(s, &IdEnv::zero())
+}
 pub fn prod(p: &P) -> Term<Prd> {
+    prod_e(p, &IdEnv::zero())
+}
+pub fn cons(c: &C) -> Term<Cns> {
+    cons_e(c, &IdEnv::zero())
+}
+
+pub fn stmt_e(s: &S, e: &IdEnv) -> Statement {
+    match s {
+        S::Cut(t, p, c) => Statement::Cut(Cut { producer: Rc::new(prod_e(p, e)), ty: ty(*t), consumer: Rc::new(cons_e(c, e)) }),
+        S::Print(p, n) => Statement::PrintI64(PrintI64 { newline: true, arg: Rc::new(prod_e(p, e)), next: Rc::new(stmt_e(n, e)) }),
+        S::IfZ(p, a, b) => Statement::IfC(IfC { sort: IfSort::Equal, fst: Rc::new(prod_e(p, e)), snd: None, thenc: Rc::new(stmt_e(a, e)), elsec: Rc::new(stmt_e(b, e)) }),
+        S::Exit(p) => Statement::Exit(Exit { arg: Rc::new(prod_e(p, e)), ty: Ty::I64 }),
+        S::CallH(a, k) => Statement::Call(Call { name: id("h"), args: Arguments { entries: vec![Argument::Producer(prod_e(a, e)), Argument::Consumer(cons_e(k, e))] }, ty: Ty::I64 }),
+        S::Call(a, b, k) => Statement::Call(Call { name: id("g"), args: Arguments { entries: vec![Argument::Producer(prod_e(a, e)), Argument::Producer(prod_e(b, e)), Argument::Consumer(cons_e(k, e))] }, ty: Ty::I64 }),
+    }
+}
+pub fn prod_e(p: &P, e: &IdEnv) -> Term<Prd> {
     match p {
         P::Lit(n) => Term::Literal(Literal { lit: *n }),
-        P::Var(v, t) => Term::XVar(XVar { prdcns: Prd, var: id(VARS[*v as usize]), ty: ty(*t) }),
-        P::Sub(a, b) => Term::Op(Op { fst: Rc::new(prod(a)), op: BinOp::Sub, snd: Rc::new(prod(b)) }),
-        P::Mu(k, t, s) => Term::Mu(Mu { prdcns: Prd, variable: id(COVARS[*k as usize]), statement: Rc::new(stmt(s)), ty: ty(*t) }),
-        P::Tup(a, b) => Term::Xtor(Xtor { prdcns: Prd, name: id("Tup"), args: Arguments { entries: vec![Argument::Producer(prod(a)), Argument::Producer(prod(b))] }, ty: ty(T::Pair) }),
+        P::Var(v, t) => Term::XVar(XVar { prdcns: Prd, var: e.var(*v), ty: ty(*t) }),
+        P::Sub(a, b) => Term::Op(Op { fst: Rc::new(prod_e(a, e)), op: BinOp::Sub, snd: Rc::new(prod_e(b, e)) }),
+        P::Mu(k, t, s) => Term::Mu(Mu { prdcns: Prd, variable: e.bcovar(*k), statement: Rc::new(stmt_e(s, e)), ty: ty(*t) }),
+        P::Tup(a, b) => Term::Xtor(Xtor { prdcns: Prd, name: id("Tup"), args: Arguments { entries: vec![Argument::Producer(prod_e(a, e)), Argument::Producer(prod_e(b, e))] }, ty: ty(T::Pair) }),
         P::No => Term::Xtor(Xtor { prdcns: Prd, name: id("No"), args: Arguments { entries: vec![] }, ty: ty(T::Opt) }),
-        P::Yes(a) => Term::Xtor(Xtor { prdcns: Prd, name: id("Yes"), args: Arguments { entries: vec![Argument::Producer(prod(a))] }, ty: ty(T::Opt) }),
+        P::Yes(a) => Term::Xtor(Xtor { prdcns: Prd, name: id("Yes"), args: Arguments { entries: vec![Argument::Producer(prod_e(a, e))] }, ty: ty(T::Opt) }),
         P::CoCase(a, b, k, s) => Term::XCase(XCase {
             prdcns: Prd,
             clauses: vec![Clause {
                 prdcns: Prd,
                 xtor: id("ap2"),
-                context: TypingContext { bindings: vec![bind(VARS[*a as usize], Chirality::Prd, T::Int), bind(VARS[*b as usize], Chirality::Prd, T::Int), bind(COVARS[*k as usize], Chirality::Cns, T::Int)] },
-                body: Rc::new(stmt(s)),
+                context: TypingContext { bindings: vec![e.bindv(*a), e.bindv(*b), e.bindk(*k)] },
+                body: Rc::new(stmt_e(s, e)),
             }],
             ty: ty(T::Fun),
         }),
     }
 }
-pub fn cons(c: &C) -> Term<Cns> {
+pub fn cons_e(c: &C, e: &IdEnv) -> Term<Cns> {
     match c {
-        C::Covar(k, t) => Term::XVar(XVar { prdcns: Cns, var: id(COVARS[*k as usize]), ty: ty(*t) }),
-        C::MuT(x, t, s) => Term::Mu(Mu { prdcns: Cns, variable: id(VARS[*x as usize]), statement: Rc::new(stmt(s)), ty: ty(*t) }),
+        C::Covar(k, t) => Term::XVar(XVar { prdcns: Cns, var: e.covar(*k), ty: ty(*t) }),
+        C::MuT(x, t, s) => Term::Mu(Mu { prdcns: Cns, variable: e.bvar(*x), statement: Rc::new(stmt_e(s, e)), ty: ty(*t) }),
         C::Case(a, b, s) => Term::XCase(XCase {
             prdcns: Cns,
             clauses: vec![Clause {
                 prdcns: Cns,
                 xtor: id("Tup"),
-                context: TypingContext { bindings: vec![bind(VARS[*a as usize], Chirality::Prd, T::Int), bind(VARS[*b as usize], Chirality::Prd, T::Int)] },
-                body: Rc::new(stmt(s)),
+                context: TypingContext { bindings: vec![e.bindv(*a), e.bindv(*b)] },
+                body: Rc::new(stmt_e(s, e)),
             }],
             ty: ty(T::Pair),
         }),
         C::CaseOpt(x, s1, s2) => Term::XCase(XCase {
             prdcns: Cns,
             clauses: vec![
-                Clause { prdcns: Cns, xtor: id("No"), context: TypingContext { bindings: vec![] }, body: Rc::new(stmt(s1)) },
-                Clause { prdcns: Cns, xtor: id("Yes"), context: TypingContext { bindings: vec![bind(VARS[*x as usize], Chirality::Prd, T::Int)] }, body: Rc::new(stmt(s2)) },
+                Clause { prdcns: Cns, xtor: id("No"), context: TypingContext { bindings: vec![] }, body: Rc::new(stmt_e(s1, e)) },
+                Clause { prdcns: Cns, xtor: id("Yes"), context: TypingContext { bindings: vec![e.bindv(*x)] }, body: Rc::new(stmt_e(s2, e)) },
             ],
             ty: ty(T::Opt),
         }),
-        C::Ap(a, b, k) => Term::Xtor(Xtor { prdcns: Cns, name: id("ap2"), args: Arguments { entries: vec![Argument::Producer(prod(a)), Argument::Producer(prod(b)), Argument::Consumer(cons(k))] }, ty: ty(T::Fun) }),
+        C::Ap(a, b, k) => Term::Xtor(Xtor { prdcns: Cns, name: id("ap2"), args: Arguments { entries: vec![Argument::Producer(prod_e(a, e)), Argument::Producer(prod_e(b, e)), Argument::Consumer(cons_e(k, e))] }, ty: ty(T::Fun) }),
     }
 }
 
@@ -425,10 +492,24 @@ pub fn program(body: &S) -> Prog {
 
 /// `final_print = false`: the result is only returned (for the backend without printing).
 pub fn program_with(body: &S, final_print: bool) -> Prog {
+    program_ids(body, final_print, false).0
+}
+
+/// `partly_unique`: see [`IdEnv`]; `max_id` is then 8. The second component says whether the variant
+/// is meaningful (an aliased binder occurs, none occurs twice).
+pub fn program_ids(body: &S, final_print: bool, partly_unique: bool) -> (Prog, bool) {
+    let env = IdEnv { alias: partly_unique, used: Rc::new(std::cell::Cell::new((0, 0))) };
     let exit = S::Exit(Rc::new(P::Var(1, T::Int)));
     let fin = if final_print { S::Print(Rc::new(P::Var(1, T::Int)), Rc::new(exit)) } else { exit };
-    let top = S::Cut(T::Int, Rc::new(P::Mu(0, T::Int, Rc::new(body.clone()))), Rc::new(C::MuT(1, T::Int, Rc::new(fin))));
-    let main = Def { name: id("main"), context: TypingContext { bindings: vec![bind("x", Chirality::Prd, T::Int)] }, body: stmt(&top) };
+    // (the final consumer binds the plain `y`)
+    let top = Statement::Cut(Cut {
+        producer: Rc::new(Term::Mu(Mu { prdcns: Prd, variable: id(COVARS[0]), statement: Rc::new(stmt_e(body, &env)), ty: Ty::I64 })),
+        ty: Ty::I64,
+        consumer: Rc::new(cons(&C::MuT(1, T::Int, Rc::new(fin)))),
+    });
+    let (nv, nk) = env.used.get();
+    let shadowed = nv <= 1 && nk <= 1 && nv + nk >= 1;
+    let main = Def { name: id("main"), context: TypingContext { bindings: vec![bind("x", Chirality::Prd, T::Int)] }, body: top };
     let pair = TypeDeclaration { dat: Data, name: id("Pair"), xtors: vec![XtorSig { xtor: Data, name: id("Tup"), args: TypingContext { bindings: vec![bind("a", Chirality::Prd, T::Int), bind("b", Chirality::Prd, T::Int)] } }] };
     let fun2 = TypeDeclaration {
         dat: Codata,
@@ -440,7 +521,7 @@ pub fn program_with(body: &S, final_print: bool) -> Prog {
         name: id("Opt"),
         xtors: vec![XtorSig { xtor: Data, name: id("No"), args: TypingContext { bindings: vec![] } }, XtorSig { xtor: Data, name: id("Yes"), args: TypingContext { bindings: vec![bind("a", Chirality::Prd, T::Int)] } }],
     };
-    Prog { defs: vec![main, helper_g(), helper_h()], data_types: vec![pair, opt], codata_types: vec![fun2], max_id: 0 }
+    (Prog { defs: vec![main, helper_g(), helper_h()], data_types: vec![pair, opt], codata_types: vec![fun2], max_id: if partly_unique { 8 } else { 0 } }, shadowed)
 }
 
 pub fn initial_scope() -> Scope {
